@@ -61,7 +61,7 @@ type DeepT struct {
 	St   Nest
 	PSt  *Nest
 	I    interface{}
-	SA   [][2]*Node          // containers of arrays of references
+	SA   [][2]*Node // containers of arrays of references
 	SAS  [][1][]int
 	MA   map[string][2]*Node
 	AA   [2][1]*Node
